@@ -102,6 +102,8 @@ def run(ck: Checker, prog: Program, tier: str):
     from . import c09
     with ck.borrow(c09, "C01.R7+"):
         ck.guard(c09._r2c, ck, prog)
+        # "the tapered, zero-padded window": the taper is applied to a copy - records tapered in place are tapered twice by the next call
+        ck.guard(c09._entry_effects, ck, prog, ("R1",))
     # the settings a caller constructs are the settings the pipeline reads (taper, smoothing, FFT length, method, ...)
     from .c15 import check_delivery
     ck.guard(check_delivery, ck, prog, "C01.R7", ["HvsrTraditionalProcessingSettings", "HvsrTraditionalSingleAzimuthProcessingSettings", "HvsrTraditionalRotDppProcessingSettings", "HvsrAzimuthalProcessingSettings", "HvsrDiffuseFieldProcessingSettings"],
